@@ -24,6 +24,18 @@ class Variant:
         self.cls = "%s_x" % fam["root"]
         self.vectors = []
         self.expect = []
+        self.constructs = []          # keyword sets (top-level data fields only) and the expected pack bytes
+        self.construct_expect = []
+        root = fam["decls"][fam["root"]]
+        datas = [f for f in root["fields"] if f["t"] == "data" and "rep" not in f and "opt" not in f and f["mode"] in ("dyn", "marker")]
+        if datas and any("describe" in f for f in root["fields"]):
+            for val in (b"abc", b"", b"zz"):
+                kw = {datas[0]["name"]: val}
+                want = model.defaults(fam, fam["root"], overrides=dict(kw))
+                est, er = harness.model_encode(fam, want)
+                if est == "ok":
+                    self.constructs.append({k: {"__bytes__": v.hex()} for k, v in kw.items()})
+                    self.construct_expect.append(er.data.hex())
         seen = set()
         tries = 0
         while len(self.vectors) < nvec and tries < 40:
@@ -54,7 +66,17 @@ class Variant:
         return {"ok": mr.value.to_json(), "end": mr.end, "packed": packed}
 
     def define_action(self, module):
-        return {"op": "define", "module": module, "source": self.source, "class": self.cls, "vectors": self.vectors, "tag": self.tag}
+        return {"op": "define", "module": module, "source": self.source, "class": self.cls, "vectors": self.vectors,
+                "constructs": self.constructs, "tag": self.tag}
+
+    def judge_constructs(self, results):
+        bad = []
+        for got, want, kw in zip(results or [], self.construct_expect, self.constructs):
+            if got.get("packed") != want:
+                bad.append({"constructed_with": kw, "want_packed": want, "got": got})
+        if self.constructs and len(results or []) != len(self.constructs):
+            bad.append({"construct_probe": "missing results"})
+        return bad
 
     def judge_probe(self, results):
         """List of mismatch descriptions between the child's probe results and the model."""
